@@ -148,6 +148,8 @@ fn variants(rng: &mut Rng, k: u32) -> Vec<(&'static str, String)> {
         ("shared-pipe-end", format!("gen {} {k} 4096 2 0 | {{ tally 64 <&3 >t1 & tally 300 <&3 >t2; wait; }} 3<&0; cat t1 t2 | {{ IFS=' =' read a n1 b s1 c q1; IFS=' =' read a n2 b s2 c q2; echo $((n1+n2)) $((s1+s2)) $((q1+q2)); }}", 150000 + k)),
 ("stop-cont", format!("{{ nap 30; echo done{k} >sc{k}; exit 3; }} & p=$!; kill -s STOP $p; kill -s CONT $p; wait $p; echo \"?=$?\"; cat sc{k}")),
         ("stop-cont", "{ nap 100000; } & p=$!; kill -s STOP $p; kill -s TERM $p; kill -s CONT $p; wait $p; echo \"?=$?\"".to_string()),
+        // a second stop signal sent to a stopped process is discarded by SIGCONT
+        ("stop-cont", format!("{{ nap 30; echo done{k} >sd{k}; exit 5; }} & p=$!; kill -s STOP $p; kill -s {} $p; kill -s CONT $p; wait $p; echo \"?=$?\"; cat sd{k}", rng.pick(&["TSTP", "TTIN", "TTOU", "STOP"]))),
         ("kill-reaped", "{ exit 0; } & p=$!; wait $p; kill -s TERM $p; echo \"?=$?\"".to_string()),
         ("fifo", format!("{{ echo w{k} >fifo; }} & cat fifo; wait; echo \"?=$?\"")),
         ("rw-no-truncate", "cat <>e1; echo z 1<>e1; cat e1".to_string()),
